@@ -327,11 +327,17 @@ def run(repo, rep):
         m2_undecided = True
         rep.undecided('C08.M2', '%s: the elements measured come from %s, not from the command set itself' % (sl.loc(), src_txt[:120]))
     by_tag = False
+    # ``if elem.tag == (0, 0): continue`` in a loop excludes what ``if elem.tag != (0, 0)`` in a comprehension includes
+    skipping = [n.test for n in (fors[0].body if fors and not gens else []) if isinstance(n, ast.If) and not n.orelse
+                and len(n.body) == 1 and isinstance(n.body[0], ast.Continue)]
     for t in filt:
         tt = norm(t)
-        if '.tag' in tt and ('!=' in tt or 'not in' in tt or '>' in tt):
-            consts = [repo.try_fold(n, dm, base) for n in ast.walk(t) if isinstance(n, (ast.Constant, ast.Tuple))]
-            if any(cst in (0, (0, 0)) for cst in consts):
+        excl = ('!=' in tt or 'not in' in tt or '>' in tt) if not any(t is k_ for k_ in skipping) else \
+            ('==' in tt or (' in ' in tt and 'not in' not in tt))
+        if '.tag' in tt and excl:
+            consts = [repo.try_fold(n, dm, base) for n in ast.walk(t) if isinstance(n, (ast.Constant, ast.Tuple, ast.Name, ast.Attribute))]
+            if any(cst in (0, (0, 0)) or (isinstance(cst, (tuple, list)) and (0, 0) in cst) for cst in consts
+                   if isinstance(cst, (int, tuple, list)) and not isinstance(cst, bool)):
                 by_tag = True
     if src_txt == 'self.command_set':
         tag_sorted = facts['iter_sorted']
@@ -484,7 +490,8 @@ def run(repo, rep):
         if absent and v != ps3_7.NO_DATASET:
             probs.append('CommandDataSetType is %r when the data set is cleared, must be 0101H' % v)
     enc_tests = [norm(n.test) for n in ast.walk(enc.node) if isinstance(n, ast.If)]
-    if 'self.data_set' not in enc_tests and 'self._data_set' not in enc_tests:
+    # (the same question asked the other way round -- ``if not self.data_set: return`` -- is the same decision)
+    if not ({'self.data_set', 'self._data_set', 'not self.data_set', 'not self._data_set'} & set(enc_tests)):
         probs.append('encode() does not decide on the truth value of the data set (tests: %s)' % enc_tests)
     rep.check(not probs, 'C08.M4', 'dimsemessages:DIMSEMessage.data_set.setter:flag-both-ways', setter.loc(),
               'flag written on both outcomes of the truth test (%d paths)' % len(fin), '; '.join(sorted(set(probs))))
